@@ -563,6 +563,45 @@ def _split_or(t):
     return [t]
 
 
+def _bool_locals(fn, test, _seen=None):
+    """local names that take part in the boolean value of `test` (cond, sdmxgen_is_stale, ...), transitively"""
+    seen = _seen if _seen is not None else set()
+    for x in ast.walk(test):
+        if isinstance(x, ast.Name) and isinstance(x.ctx, ast.Load) and x.id not in seen:
+            defs = [st for st in pf.walk_no_nested(fn) if isinstance(st, ast.Assign) and len(st.targets) == 1
+                    and isinstance(st.targets[0], ast.Name) and st.targets[0].id == x.id]
+            if defs and x.id not in [a.arg for a in fn.args.args]:
+                seen.add(x.id)
+                for d in defs:
+                    _bool_locals(fn, d.value, seen)
+    return seen
+
+
+def _bool_leaves(fn, test, depth=0):
+    """the atomic tests a reuse condition is built from: and / or / not are opened, and a boolean local (also one
+    accumulated with `c = c or x`) is replaced by the expressions assigned to it"""
+    if isinstance(test, ast.BoolOp):
+        out = []
+        for v in test.values:
+            out += _bool_leaves(fn, v, depth)
+        return out
+    if isinstance(test, ast.UnaryOp) and isinstance(test.op, ast.Not) and isinstance(test.operand, (ast.BoolOp, ast.Name)):
+        return _bool_leaves(fn, test.operand, depth)
+    if isinstance(test, ast.Name) and depth < 4 and test.id not in [a.arg for a in fn.args.args]:
+        defs = [st for st in pf.walk_no_nested(fn) if isinstance(st, ast.Assign) and len(st.targets) == 1
+                and isinstance(st.targets[0], ast.Name) and st.targets[0].id == test.id]
+        out = []
+        for d in defs:
+            vals = d.value.values if isinstance(d.value, ast.BoolOp) else [d.value]
+            for v in vals:
+                if isinstance(v, ast.Name) and v.id == test.id:
+                    continue  # the accumulator itself
+                out += _bool_leaves(fn, v, depth + 1)
+        if defs:
+            return out
+    return [test]
+
+
 def _guarded_constructions(fn, params):
     """every `self.X = <call>(... method parameter ...)` of the method -> (assign, guarding If or None)"""
     out = []
@@ -748,8 +787,7 @@ def rule_reinit(chk):
             if guard == "unrecognised":
                 raise core.AnalysisError("%s: construction of self.%s inside a loop/try/with is not a recognised shape"
                                          % (fq, gen_attr))
-            ors, ands = (_cond_terms(fn, guard.test.id) if isinstance(guard.test, ast.Name)
-                         else (_split_or(guard.test), []))
+            ors, ands, cond_names = _bool_leaves(fn, guard.test), [], _bool_locals(fn, guard.test)
             if not ors:
                 raise core.AnalysisError("%s: reuse condition of self.%s not understood: %s" % (
                     fq, gen_attr, pf.src(guard.test)))
@@ -814,11 +852,8 @@ def rule_reinit(chk):
                                       "grids.build() creates a new grids_indexer and new coords"), instance=inst)
             # (a') the reuse test is evaluated on the state left by the PREVIOUS call: nothing it reads may be
             # (re)assigned, directly or through the super() chain / a self-helper, before it is evaluated
-            if isinstance(guard.test, ast.Name):
-                evals = [st for st in pf.walk_no_nested(fn) if isinstance(st, ast.Assign) and len(st.targets) == 1
-                         and isinstance(st.targets[0], ast.Name) and st.targets[0].id == guard.test.id]
-            else:
-                evals = [guard]
+            evals = [guard] + [st for st in pf.walk_no_nested(fn) if isinstance(st, ast.Assign) and len(st.targets) == 1
+                               and isinstance(st.targets[0], ast.Name) and st.targets[0].id in cond_names]
             g_cfg = cfgm.CFG(fn)
             for ev_st in evals:
                 expr = ev_st.test if isinstance(ev_st, ast.If) else ev_st.value
